@@ -229,6 +229,7 @@ def capacity_validation(db, cx, rule):
                     f.calls(C + "ExtendFromSecondariesAction::process_secondaries")]
         cx.require(launches, "step_impl no longer calls process_secondaries")
         brs = []
+        weakened = []
         for bid, blk in f.blocks.items():
             c = blk.get("cond")
             if not c or c.get("op") not in ("<=", "<", ">=", ">"):
@@ -238,9 +239,23 @@ def capacity_validation(db, cx, rule):
                 l, r = r, l
             if CNT in l and INITS in r and any(x.endswith("::size") for x in
                                                c.get("rcalls", []) + c.get("lcalls", [])):
-                brs.append(bid)
+                # the bound must not be weakened: the counter itself (nothing subtracted from
+                # it) against the array size itself (nothing added to it)
+                lt, rt = c.get("l", ""), c.get("r", "")
+                lcs, rcs = c.get("lcalls", []), c.get("rcalls", [])
+                if c["op"] in (">=", ">"):
+                    lt, rt, lcs, rcs = rt, lt, rcs, lcs
+                exact = not any(ch in lt for ch in "-/*%?") and not lcs and \
+                    not any(ch in rt.replace("->", ".") for ch in "+*-/%?") and \
+                    all(x.endswith("::size") for x in rcs)
+                if exact:
+                    brs.append(bid)
+                else:
+                    weakened.append(c.get("t", ""))
         ok = False
         why_not = "no comparison of num_initializers with initializers.size()"
+        if weakened:
+            why_not = "the bound is weakened by arithmetic: `%s`" % weakened[0][:120]
         for br in brs:
             e = f.cond_polarity_edge(br, True)
             fail_tgt = f.blocks[br]["succ"][1 - e]
